@@ -55,12 +55,13 @@ func (s pstmt) cstor() policy.Constructor {
 	panic("bad kind " + s.kind)
 }
 
+// selectors go to the model as text: what they mean is for the model's parser to say (the harness only makes
+// sure the pool texts are accepted by the implementation)
 func selW(text string) W {
-	sel, err := selector.Parse(text)
-	if err != nil {
+	if _, err := selector.Parse(text); err != nil {
 		panic("harness selector pool must parse: " + text)
 	}
-	return segsW(sel)
+	return WStr(text)
 }
 
 func (s pstmt) wire() W {
@@ -273,6 +274,43 @@ func genPolicy(c *Ctx) {
 					run1("pol/like-kinds", []pstmt{{kind: "like", sel: sel, pat: p}}, J(j))
 					run1("pol/like-kinds", []pstmt{{kind: "any", sel: ".", subs: []pstmt{{kind: "like", sel: sel, pat: p}}}}, mkList(J(j)))
 				}
+			}
+		}
+	}
+	// like with the zero byte and U+FFFF in text and pattern, and runs of wildcards beside escaped stars
+	{
+		ps := []string{"a", "a*", "**a", "\uffff**", "**\uffff", "\\***", "\uffff\\*", "a**b", "a\x00", "\x00*", "\\*\uffff**"}
+		bs := []string{"a", "a\x00", "\x00", "\uffff", "\uffff*", "*", "\\*", "ab", "a\x00b", "aXb", "a\x00\x00", "*\uffff", "\\*\uffff"}
+		for _, p := range ps {
+			for _, b := range bs {
+				d := mkMap(ent{"s", basicnode.NewString(b)}, ent{"l", mkList(basicnode.NewString(b))})
+				run1("pol/like-sentinels", []pstmt{{kind: "like", sel: ".s", pat: p}}, d)
+				run1("pol/like-sentinels", []pstmt{{kind: "not", subs: []pstmt{{kind: "like", sel: ".s", pat: p}}}}, d)
+				run1("pol/like-sentinels", []pstmt{{kind: "all", sel: ".l", subs: []pstmt{{kind: "like", sel: ".", pat: p}}}}, d)
+			}
+		}
+	}
+	// selectors with several slice segments (each has its own bounds), in every statement kind
+	{
+		d := J(`{"a":[1,2,3,4,5],"s":"hello","l":[[1,2,3,4,5],[3,4,5,6,7]]}`)
+		sels := []string{".a[1:][0:2]", ".a[:4][-1:]", ".a[1:][:1]", ".a[0:2][1:]", ".a[2:][1:][0:1]", ".a[-2:][:1]", ".a[1:3]"}
+		for _, sel := range sels {
+			for _, v := range []string{"[2,3]", "[4]", "[2]", "[1,2]", "[5]", "[]", "[3,4]", "[1]"} {
+				run1("pol/two-slices", []pstmt{{kind: "==", sel: sel, val: J(v)}}, d)
+				run1("pol/two-slices", []pstmt{{kind: "not", subs: []pstmt{{kind: "==", sel: sel, val: J(v)}}}}, d)
+				run1("pol/two-slices", []pstmt{{kind: "any", sel: ".l", subs: []pstmt{{kind: "==", sel: "." + sel[2:], val: J(v)}}}}, d)
+			}
+			for _, k := range []string{"0", "1", "-1"} {
+				for _, v := range []string{"1", "2", "3", "4", "5"} {
+					run1("pol/two-slices", []pstmt{{kind: "==", sel: sel + "[" + k + "]?", val: J(v)}}, d)
+					run1("pol/two-slices", []pstmt{{kind: ">=", sel: sel + "[" + k + "]?", val: J(v)}}, d)
+				}
+			}
+		}
+		for _, sel := range []string{".s[1:][0:2]", ".s[:4][-1:]", ".s[1:][:1]", ".s[0:2][1:]", ".s[1:3]"} {
+			for _, p := range []string{"el", "h*", "e*", "l", "e", "he", "*l", "*"} {
+				run1("pol/two-slices", []pstmt{{kind: "like", sel: sel, pat: p}}, d)
+				run1("pol/two-slices", []pstmt{{kind: "not", subs: []pstmt{{kind: "like", sel: sel, pat: p}}}}, d)
 			}
 		}
 	}
